@@ -3,17 +3,18 @@ sys.path.insert(0, os.path.dirname(os.path.dirname(os.path.abspath(__file__))))
 from checks import *
 
 def P(k, head, **kw):
-    d = {'TAIL_K': k, 'HEAD_SEL': head}; d.update(kw); return d
+    # the longest path of a parse query on the current tree is ~30 000 instructions; a path of 3 million is reported as non-termination
+    d = {'TAIL_K': k, 'HEAD_SEL': head, '_path_limit': 3000000}; d.update(kw); return d
 
 CHECKS = {
  'C13': {
   'level': 'other',
   'explanation': 'PARTIAL (see DESIGN.md section 4, C13).  (a) round trip: for every description over a pool of 2 states x 2-3 ranked symbols (presence bit per declared symbol, declared state, final state and transition) ParseString(Serialize(d)) returns the same final states and transitions (the declaration lists and the automaton name are not part of the property and are not compared), and LoadFromAutDesc + DumpToAutDesc through the explicit encoding keeps rules and final states under the same names; number<->text conversion (Convert::ToString/FromString = ostringstream/istringstream) is executed through stubs (engine/rt/convert_models.cc), everything else is the real serializer, parser and loader code.  (b) robustness: TimbukParser::ParseString (src/timbuk_parser-nobison.cc: parse_timbuk, trim, split_delim, read_word, contains_whitespace, parse_colonned_token without numbers) executed symbolically on texts consisting of one of three concrete, colon-free heads followed by K symbolic characters drawn from the 8-character alphabet {blank, newline, ( ) , - > q}: for every such text the parser returns or throws (the exception path ends at __cxa_throw), without any memory-safety / UB violation, and every transition of a returned description has a non-empty symbol and a non-empty blank-free right-hand side.  NOT covered: the iostream code behind Convert (stubbed), the loaders of the finite-automaton and BDD classes, names other than those of the pool, arbitrary bytes outside the 8-character alphabet, texts with more than K free characters.',
-  'bounds': {'quick': 'robustness: 3 heads x K in {4,5} free characters (12 and 15 free bits per query); round trip and load/dump: 2 states x 2 symbols (12 bits)', 'thorough': 'robustness: 3 heads x K in {4,5,6}; round trip additionally 2 states x 3 symbols incl. a binary one (15 bits)'},
+  'bounds': {'quick': 'robustness: 8 text frames (the free part sits in the Ops, Automaton, States, Final States line, on a line of its own, at the start of a transition, inside a transition, between a rule symbol and its arrow) x K in {3,5,6,8} free characters from a 16-character alphabet (all six white-space characters, parentheses, comma, minus, greater-than, colon, a digit, two declared names, an undeclared letter): 12, 20, 24 and 32 free bits per query; round trip and load/dump: 2 states x 2 symbols (12 bits)', 'thorough': 'robustness: the 8 frames x K in {3,5,6,8,9,10} (up to 40 free bits); round trip additionally 2 states x 3 symbols incl. a binary one (15 bits)'},
   'outside': 'see explanation: round trip, serializer, loaders, numbers after a colon, bytes outside the alphabet, longer free parts',
   'harnesses': [
     {'name': 'parse', 'src': 'harness/C13/parse.cc', 'tus': ['timbuk_parser-nobison'],
-     'configs': {'quick': [P(k, h) for k in (4, 5) for h in (0, 1, 2)], 'thorough': [P(k, h) for k in (4, 5, 6) for h in (0, 1, 2)]},
+     'configs': {'quick': [P(k, h) for k in (3, 5, 6, 8) for h in range(8)], 'thorough': [P(k, h, _time=2500, _mem_gb=24) for k in (3, 5, 6, 8, 9, 10) for h in range(8)]},
      'selftest_config': P(4, 0), 'selftests': ['VS_SELFTEST_1']},
     {'name': 'roundtrip', 'src': 'harness/C13/roundtrip.cc', 'tus': ['timbuk_parser-nobison', 'timbuk_serializer'],
      'configs': {'quick': [{'NST': 2, 'NSY': 2}], 'thorough': [{'NST': 2, 'NSY': 2}, {'NST': 2, 'NSY': 3, '_time': 2500}]},
